@@ -255,14 +255,42 @@ def ref_mrq(name, B, nets, cfg, run, extra):
     return r
 
 
+def ref_sac(name, B, nets, cfg, run, extra):
+    """SAC: y = r + (1 - t) * gamma * (min(Q1', Q2')(o', a') - alpha * log pi(a' | o')), a' = the action the routine drew for the
+    bootstrap (read from the probe on the target critic), log pi from the (cloned) policy, alpha as it was at the sample instant."""
+    g = cfg["gamma"]
+    o, o2, a = B["observation"], B["next_observation"], B["action"]
+    x = extra.get("qt_input")
+    alpha = extra.get("alpha")
+    od = o2.shape[1]
+    if x is None or alpha is None or x.shape[0] != o2.shape[0] or not np.array_equal(x[:, :od].astype(np.float32), o2.astype(np.float32)):
+        return None
+    a2 = _f64(x[:, od:])
+    logp = _f64(nets["policy"].log_probability(_J(o2), _J(a2))).reshape(-1)
+    x2 = np.concatenate([_f64(o2), a2], axis=1)
+    xx = np.concatenate([_f64(o), _f64(a)], axis=1)
+    qt, q = nets["q_target"], nets["q"]
+    boot = np.minimum(_col(_fwd(qt.q1, x2)), _col(_fwd(qt.q2, x2))) - alpha * logp
+    y = B["_r"] + (1.0 - B["_t"]) * g * boot
+    p1, p2 = _col(_fwd(q.q1, xx)), _col(_fwd(q.q2, xx))
+    e1, e2 = p1 - y, p2 - y
+    scale = max(np.abs(p1).max(), np.abs(p2).max(), np.abs(y).max(), np.abs(alpha * logp).max())
+    emax = max(np.abs(e1).max(), np.abs(e2).max())
+    r = Ref()
+    r.put("q loss", np.mean(e1 * e1) + np.mean(e2 * e2), scale, 4 * (emax + 1.0))
+    r.put("q mean", np.mean(np.minimum(p1, p2)), scale)
+    r.y = y
+    return r
+
+
 REFS = {"dqn": ref_dqn_family, "nature_dqn": ref_dqn_family, "ddqn": ref_dqn_family, "ddqn_per": ref_dqn_family,
         "ddpg": ref_continuous, "td3": ref_continuous, "td3_lap": ref_continuous}
 NEEDS = {"dqn": ("q",), "nature_dqn": ("q", "q_target"), "ddqn": ("q", "q_target"), "ddqn_per": ("q", "q_target"),
          "ddpg": ("q", "q_target", "policy_target"), "td3": ("q", "q_target", "policy_target"), "td3_lap": ("q", "q_target", "policy_target"),
-         "td7": ("embedding",), "mrq": ("pwe", "pwe_target", "q", "q_target")}
+         "td7": ("embedding",), "mrq": ("pwe", "pwe_target", "q", "q_target"), "sac": ("q", "q_target", "policy")}
 OPTIONAL = {"td7": ("fixed_embedding", "fixed_embedding_target", "critic", "critic_target", "actor_target")}
 PRIORITY_MODS = {"td3_lap": "rl_blox.algorithm.td3_lap", "ddqn_per": "rl_blox.algorithm.per", "td7": "rl_blox.algorithm.td7", "mrq": "rl_blox.algorithm.mrq"}
-QT_NAME = {"td3": "q_target", "td3_lap": "q_target", "td7": "critic_target"}
+QT_NAME = {"td3": "q_target", "td3_lap": "q_target", "td7": "critic_target", "sac": "q_target"}
 
 
 class RefinementMonitor:
@@ -305,7 +333,7 @@ class RefinementMonitor:
                     self.undo.append((fn, orig))
         c = run.plan["cfg"]
         smoothing = c.get("noise_clip", 0.0) != 0.0 and (self.name in ("td3",) or c.get("target_policy_noise", 0.2) != 0.0)
-        self.use_probe = self.name in QT_NAME and smoothing and QT_NAME[self.name] in run.comps
+        self.use_probe = self.name in QT_NAME and (smoothing or self.name == "sac") and QT_NAME[self.name] in run.comps
         if self.use_probe:
             probe(run.comps[QT_NAME[self.name]], "qt", run.recorder)
 
@@ -321,6 +349,8 @@ class RefinementMonitor:
             if inter:
                 return  # the encoder's batch (full view); the representation loss is not part of this reference
         extra = {}
+        if self.name == "sac" and getattr(run, "entropy_control", None) is not None:
+            extra["alpha"] = float(np.asarray(run.entropy_control.alpha_, dtype=np.float64).reshape(-1)[0])
         b = out
         if isinstance(out, tuple) and not hasattr(out, "_fields"):
             b, extra["is_ratio"] = out[0], np.array(np.asarray(out[1]), copy=True)
@@ -379,6 +409,8 @@ class RefinementMonitor:
             return ref_td7(self.name, s["batch"], s["nets"], cfg, self.run, s["extra"])
         if self.name == "mrq":
             return ref_mrq(self.name, s["batch"], s["nets"], cfg, self.run, s["extra"])
+        if self.name == "sac":
+            return ref_sac(self.name, s["batch"], s["nets"], cfg, self.run, s["extra"])
         return ref_continuous(self.name, s["batch"], s["nets"], cfg, self.run, s["extra"])
 
     def finish(self):
